@@ -128,7 +128,17 @@ example : ∃ s, run (init 2) [.queueDirect 1, .queueUnsendable 4, .queueBatched
   refine ⟨_, rfl, ?_⟩
   decide
 
-/-- After the failure, a call handed to the connection (through any of the four entry points) is
+/-- a poisoned batch: call 3 cannot be marshalled, so the whole multi `[3, 4]` formed while the
+writer was busy is completed locally with the marshalling error (one id consumed, nothing sent) -/
+example : ∃ s, run (init 2) [.queueBatched 2, .queueBatchedUnsendable 3, .queueBatched 4,
+      .write .writer true .ok, .arm .writer .ok] = some s ∧
+    s.delivered = [⟨3, .fatal, none⟩, ⟨4, .fatal, none⟩] ∧ s.unsendable = [3, 4] ∧
+    s.sent = [(1, .multi [2])] ∧ s.nextId = 2 ∧ s.offered = [] ∧ s.sends = [] ∧
+    places s 3 = 1 ∧ places s 4 = 1 := by
+  refine ⟨_, rfl, ?_⟩
+  decide
+
+/-- After the failure, a call handed to the connection (through any of the five entry points) is
 refused at once with a connection-level error, and nothing else changes. -/
 theorem refused_after_done {s : St} {c : Nat} (hd : s.done = true) (hc : c ∉ s.handed)
     (hx : c ∉ s.ctxDone) :
@@ -139,6 +149,8 @@ theorem refused_after_done {s : St} {c : Nat} (hd : s.done = true) (hc : c ∉ s
     step s (.queueUnsendable c) =
         some { s with handed := s.handed ++ [c], delivered := s.delivered ++ [⟨c, .connErr, none⟩] } ∧
     step s (.queueDirectClosing c) =
+        some { s with handed := s.handed ++ [c], delivered := s.delivered ++ [⟨c, .connErr, none⟩] } ∧
+    step s (.queueBatchedUnsendable c) =
         some { s with handed := s.handed ++ [c], delivered := s.delivered ++ [⟨c, .connErr, none⟩] } := by
   simp [step, hd, hc, hx]
 
@@ -147,7 +159,8 @@ and dropping; the model excludes that input for every entry point) -/
 theorem refused_excluded_when_ctx_ended {s : St} {c : Nat} (hd : s.done = true) (hc : c ∉ s.handed)
     (hx : c ∈ s.ctxDone) :
     step s (.queueDirect c) = none ∧ step s (.queueBatched c) = none ∧
-    step s (.queueUnsendable c) = none ∧ step s (.queueDirectClosing c) = none := by
+    step s (.queueUnsendable c) = none ∧ step s (.queueDirectClosing c) = none ∧
+    step s (.queueBatchedUnsendable c) = none := by
   simp [step, hd, hc, hx]
 
 example : ∃ s, run (init 2) [.queueDirect 1, .readErr] = some s ∧ s.done = true ∧ 2 ∉ s.handed ∧
